@@ -379,7 +379,8 @@ def run_axis_dispatch(repo, res, modules):
             continue
         body = f.node.body
         for i, st in enumerate(body):
-            if not (isinstance(st, ast.If) and isinstance(st.test, ast.Compare) and unparse(st.test.left, 0) == 'axis'
+            if not (isinstance(st, ast.If) and isinstance(st.test, ast.Compare)
+                    and 'axis' in (unparse(st.test.left, 0), unparse(st.test.comparators[0], 0))
                     and st.orelse and len(st.orelse) == 1 and isinstance(st.orelse[0], ast.If)):
                 continue
             n += 1
